@@ -6,7 +6,7 @@ Theorems about `Model.GenHlsl` (the exporter) against `Spec.Sem` (typed IR seman
 emitted syntax), for every interpretation `P : Prim` of float arithmetic, conversions and integer division.
 -/
 namespace RsslVerif.Thm.C01
-open RsslVerif.Gen.HlslGenTables RsslVerif.Model RsslVerif.Model.GenHlsl RsslVerif.Spec.Sem RsslVerif.Lemmas.GenSem
+open RsslVerif.Gen.HlslGenTables RsslVerif.Gen.HlslIntrinsicTables RsslVerif.Model RsslVerif.Model.GenHlsl RsslVerif.Spec.Sem RsslVerif.Lemmas.GenSem
 open RsslVerif.Model.Ir (Ty Var Const Dir)
 
 /-- `generate_intrinsic_op`'s table (re-extracted from the source on every run) maps every typed operator to the syntax
@@ -24,6 +24,13 @@ theorem op_table_is_identity :
 of exactly one typed operator (the table is injective: no two operators are merged). -/
 theorem op_table_injective : ∀ a b : IntrinsicOp, opForm a = opForm b → opForm a ≠ .unexpected → a = b := by
   intro a b; cases a <;> cases b <;> decide
+
+/-- `generate_intrinsic_function`'s table (243 intrinsics, re-extracted on every run) invokes every modelled pure
+math / bit intrinsic under the name HLSL gives exactly that built-in, and `Form::Invoke` passes the arguments in order -/
+theorem intrinsic_table_is_identity :
+    (∀ p ∈ Ast.builtins, intrinsicForm p.2 = .invoke p.1 ∧ Ast.hlslBuiltin p.1 = some p.2) ∧
+    invokeFormAsModelled = true :=
+  ⟨builtins_table_ok, by decide⟩
 
 /-- the expansion of the two forms, the `Sequence` fold, the `Cast` arm and the ternary arm of the source have the
 shape `Model.GenHlsl` mirrors, and so has the label handling of `generate_scope_block` / `generate_statement`
@@ -170,13 +177,14 @@ def P0 : Prim where
   f2u x := x
   f2b _ := false
   d2f _ := 0
+  intr _ _ _ := none
 
 def W0 : World := { P := P0, phi := fun _ _ _ => none, sig := fun _ => none }
 
 def cx0 : Ctx where
   locName n := String.ofList (List.replicate (n + 1) 'l')
   globName n := String.ofList ('g' :: List.replicate n 'g')
-  funcName n := String.ofList ('f' :: List.replicate n 'f')
+  funcName n := String.ofList ('Z' :: List.replicate n 'Z')
   vty
     | .loc 0 => .bool
     | .loc 1 => .int
@@ -190,7 +198,7 @@ def env0 : Ast.Env where
     | _ => none
   vty := cx0.vty
   fres s := match s.toList with
-    | 'f' :: r => some r.length
+    | 'Z' :: r => some r.length
     | _ => none
 
 theorem agree0 : Agree cx0 env0 where
@@ -198,6 +206,8 @@ theorem agree0 : Agree cx0 env0 where
     cases x <;> simp [Ctx.name, cx0, env0, List.replicate_succ]
   vty := rfl
   fres f := by simp [cx0, env0]
+  builtin i name h := by
+    cases i <;> simp [intrinsicForm] at h <;> subst h <;> rfl
 
 
 /-- `(2147483647 + t) > 0` with `t : bool`, as the type checker elaborates it: `Cast(IntLiteral, t)` -/
@@ -260,6 +270,11 @@ constant and a cast; the names agree (`agree0`); the exporter produces a definit
 example : Ir.wtStmts W0.sig cx0.vty fEx.ret none fEx.body = true := by decide
 example : ∃ afn, genFunc cx0 fEx = .ok afn := ⟨_, rfl⟩
 example : Agree cx0 env0 := agree0
+/-- `max(v1, 3)` at `int`, `sqrt((float)v1)`: accepted, exported, and covered by `gen_sem_expr` -/
+example : Ir.typeOf W0.sig cx0.vty (.intr .Max .int .int (.cons (.var 1) (.cons (.lit (.int32 3)) .nil))) = some .int ∧
+    Ir.litOK (.intr .Max .int .int (.cons (.var 1) (.cons (.lit (.int32 3)) .nil))) = true ∧
+    genExpr cx0 (.intr .Max .int .int (.cons (.var 1) (.cons (.lit (.int32 3)) .nil))) =
+      .ok (.call "max" (.cons (.ident "ll") (.cons (.lit (.intUntyped 3)) .nil))) := ⟨by decide, by decide, rfl⟩
 /-- …and the instance of `gen_sem_func` it yields -/
 example (afn : HlslAst.Func) (h : genFunc cx0 fEx = .ok afn) (fuel : Nat) (vals : List Val) (σ : Store) :
     Ast.callFunc W0 env0 fuel afn vals σ = Ir.callFunc W0 fuel fEx vals σ :=
